@@ -20,7 +20,7 @@ MANIFEST = {
             "arrangement/element-index/system-operation operands are judged on template + register fields only (partial; counted in the evidence). "
             "Classes without a hand model are covered by the monitor sweep only (testing).",
 }
-MODS = ["AsmjitVerif.Props.C02", "AsmjitVerif.Props.C02E2E", "AsmjitVerif.Props.C02Valid", "AsmjitVerif.Props.C02Mov", "AsmjitVerif.Props.C02Bits", "AsmjitVerif.Props.C02Wide"]
+MODS = ["AsmjitVerif.Props.C02", "AsmjitVerif.Props.C02E2E", "AsmjitVerif.Props.C02Valid", "AsmjitVerif.Props.C02Mov", "AsmjitVerif.Props.C02Bits", "AsmjitVerif.Props.C02Wide", "AsmjitVerif.Props.C02Refuse"]
 M64 = (1 << 64) - 1
 
 GP_IDS_OK = [0, 1, 7, 8, 15, 16, 29, 30]
@@ -454,14 +454,20 @@ def run(res):
     if rc3 != 0 or len(model) != len(ops):
         res.violation("model protocol failure rc=%d lines %d/%d %s" % (rc3, len(model), len(ops), err3[-400:]), {}, False, key="protocol")
         return
+    per_class = {}          # class -> [lines answered by the hand model, lines not modelled, accepted lines answered by the model]
     for i, (a, b) in enumerate(zip(impl, model)):
+        pc_ = per_class.setdefault(classify_key(ops[i], insts, enc_names), [0, 0, 0])
         if b == "err NotModelled":
+            pc_[1] += 1
             continue
+        pc_[0] += 1
+        if a.startswith("ok"):
+            pc_[2] += 1
         modelled += 1
         if a != b:
             diffs.append(i)       # every difference is reported (key "corr"); the model follows /repo as it is
 
-    if modelled < 20000 or len([1 for r in impl if r.startswith("ok")]) < 10000:
+    if modelled < 20000 or modelled * 10 < len(ops) * 9 or len([1 for r in impl if r.startswith("ok")]) < 10000:
         res.violation("the correspondence is not exercised: %d model lines, %d accepted lines" % (modelled, len([1 for r in impl if r.startswith("ok")])),
                       {"model_lines": modelled}, False, key="empty-sweep")
     kinds = {}
@@ -487,6 +493,10 @@ def run(res):
     res.coverage["accepted_by_probe_kind"] = tags
     res.coverage["model_lines"] = modelled
     res.coverage["model_diffs"] = len(diffs)
+    res.coverage["model_lines_by_class"] = {k: {"modelled": v[0], "not_modelled": v[1], "modelled_accepted": v[2]}
+                                            for k, v in sorted(per_class.items(), key=lambda x: -(x[1][0] + x[1][1]))}
+    res.coverage["classes_modelled"] = len([1 for v in per_class.values() if v[0] and not v[1]])
+    res.coverage["classes_not_modelled"] = sorted(k for k, v in per_class.items() if v[1])
     res.coverage["model_diff_samples"] = [{"op": ops[i], "impl": impl[i], "model": model[i]} for i in diffs[:8]]
     res.coverage["input_distribution"] = dict(sorted(kinds.items(), key=lambda x: -x[1])[:120])
     res.coverage["traces_validated_against_impl"] = modelled
